@@ -2,126 +2,9 @@
 
 package wsutil
 
-import (
-	"io"
-
-	"github.com/gobwas/ws"
-)
-
 // vDFAMap maps the implementation's DFA state (a row offset into utf8d) to the reference
 // automaton's state; 99 for values that are not DFA states.
 func vDFAMap(s uint32) uint64 {
 	return vIte(s == 0, 0, vIte(s == 12, 8, vIte(s == 24, 1, vIte(s == 36, 2, vIte(s == 48, 4,
 		vIte(s == 60, 5, vIte(s == 72, 6, vIte(s == 84, 3, vIte(s == 96, 7, 99)))))))))
-}
-
-// C07_dfa_bisimulation: the table-driven decoder and the reference automaton written from
-// Unicode Table 3-7 make the same transition from every state on every byte (so they accept
-// the same strings of ANY length), and the transition does not depend on the code point.
-func C07_dfa_bisimulation() {
-	s := vU32("state")
-	vAssume(vDFAMap(s) != 99)
-	b := vU8("b")
-	c1, c2 := vU32("codep1"), vU32("codep2")
-	_, n1 := decode(s, c1, b)
-	_, n2 := decode(s, c2, b)
-	vAssert(n1 == n2, "dfa.codep_independent")
-	vAssert(vDFAMap(n1) != 99, "dfa.closed")
-	vAssert(vDFAMap(n1) == vUTF8Step(vDFAMap(s), b), "dfa.bisimilar")
-	vAssert(vAnd(vDFAMap(utf8Accept) == 0, vDFAMap(utf8Reject) == 8), "dfa.accept_reject_states")
-	vTrace("next", uint64(n1))
-}
-
-// C07_reader_step: UTF8Reader.Read from an arbitrary DFA state over n<=4 arbitrary bytes.
-func C07_reader_step() {
-	s := vU32("state")
-	vAssume(vAnd(vDFAMap(s) != 99, s != utf8Reject))
-	maxN := 3 + vTier()
-	n := vChoose("n", maxN+1)
-	data := vBytes("d", n)
-	src := vNewSrc(data, 0, "chunk")
-	u := &UTF8Reader{Source: &src, state: s, codep: vU32("codep"), accepted: int(vU8("stale"))}
-	buf := make([]byte, 8)
-	got, err := u.Read(buf)
-	// reference run
-	rs := vDFAMap(s)
-	rejected := false
-	acc := uint64(0)
-	for i := 0; i < n; i++ {
-		rs = vUTF8Step(rs, data[i])
-		rejected = vOr(rejected, rs == 8)
-		acc = vIte(vAnd(!rejected, rs == 0), uint64(i+1), acc)
-	}
-	vAssert((err == ErrInvalidUTF8) == rejected, "ustep.invalid_iff_reject")
-	if err == ErrInvalidUTF8 {
-		vAssert(uint64(got) == acc, "ustep.returns_last_boundary")
-		vAssert(!u.Valid(), "ustep.not_valid_after_reject")
-		return
-	}
-	vAssert(got == n, "ustep.n")
-	vAssert(vDFAMap(u.state) == rs, "ustep.state_advanced")
-	vAssert(u.Valid() == (rs == 0), "ustep.valid")
-	vAssert(uint64(u.Accepted()) == acc, "ustep.accepted")
-	vAssert(vEqBytes(buf[:n], data), "ustep.bytes_passed_through")
-}
-
-// C07_reader_text: with CheckUTF8, a (possibly fragmented) text message is delivered without
-// error iff the whole payload is valid UTF-8, wherever the fragment boundary / interleaved
-// control frame / read boundary falls; binary is never checked; the next message starts clean.
-func C07_reader_text() {
-	server := vChoose("side", 2) == 0
-	total := 3 + vTier()
-	n := vChoose("n", total+1)
-	p := vBytes("p", n)
-	split := vChoose("split", n+2) // n+1 = unfragmented
-	op := byte(1 + vChoose("op", 2))
-	var wire []byte
-	key := [4]byte{vU8("k0"), vU8("k1"), vU8("k2"), vU8("k3")}
-	if split == n+1 {
-		wire = vEncode(vFrame{fin: true, op: op, masked: server, key: key, payload: p})
-	} else {
-		wire = vEncode(vFrame{fin: false, op: op, masked: server, key: key, payload: p[:split]})
-		if vChoose("ctl", 2) == 1 {
-			wire = append(wire, vEncode(vFrame{fin: true, op: 9, masked: server, key: key, payload: []byte{0xff}})...)
-		}
-		wire = append(wire, vEncode(vFrame{fin: true, op: 0, masked: server, key: key, payload: p[split:]})...)
-	}
-	wire = append(wire, vEncode(vFrame{fin: true, op: 1, masked: server, key: key, payload: []byte{'o', 'k'}})...)
-	valid := vUTF8Valid(p)
-	src := vNewSrc(wire, vChoose("mode", 2), "chunk")
-	if vChoose("api", 2) == 0 {
-		B := []int{1, 16}[vChoose("B", 2)]
-		rd := &Reader{Source: &src, State: vSide(server), CheckUTF8: true}
-		_, err := rd.NextFrame()
-		vAssert(err == nil, "text.first_ok")
-		got, err := vReadAllB(rd, B)
-		if op == 2 {
-			vAssert(vAnd(err == io.EOF, vEqBytes(got, p)), "text.binary_never_checked")
-		} else {
-			vAssert((err == io.EOF) == valid, "text.complete_iff_valid")
-			vAssert(vImplies(!valid, err == ErrInvalidUTF8), "text.invalid_reported")
-			if err == io.EOF {
-				vAssert(vEqBytes(got, p), "text.payload")
-			}
-		}
-		if err != io.EOF {
-			return
-		}
-		h, err := rd.NextFrame()
-		vAssert(vAnd(err == nil, h.OpCode == ws.OpText), "text.next_ok")
-		got, err = vReadAllB(rd, B)
-		vAssert(vAnd(err == io.EOF, vEqBytes(got, []byte("ok"))), "text.next_clean")
-		return
-	}
-	ms, err := ReadMessage(&src, vSide(server), nil)
-	if op == 2 {
-		vAssert(err == nil, "text.rm_binary_ok")
-	} else {
-		vAssert((err == nil) == valid, "text.rm_ok_iff_valid")
-	}
-	if err == nil {
-		vAssert(vEqBytes(ms[len(ms)-1].Payload, p), "text.rm_payload")
-		ms, err = ReadMessage(&src, vSide(server), nil)
-		vAssert(vAnd(err == nil, vEqBytes(ms[len(ms)-1].Payload, []byte("ok"))), "text.rm_next_clean")
-	}
 }
